@@ -21,9 +21,20 @@ variable {s : SchemaD} {d : Doc}
 
 /-- a step that counts nothing and leaves memo and crash flag alone -/
 theorem GP.skip {c c' : OCtx} {Res : Memo → Prop} (hp : c'.pairs = c.pairs) (hcr : c'.crash = c.crash)
-    (hres : ∀ M, Res M) (h : c'.crash = none) : GP s d c (0, c') Res :=
+    (hres : ∀ M, Sup c M → Res M) (h : c'.crash = none) : GP s d c (0, c') Res :=
   ⟨by rw [← hcr]; exact h, fun k hk => by simp only; rw [hp]; exact hk,
-   fun _ M _ => ⟨fun k hk => Or.inl (by simp only at hk; rw [hp] at hk; exact hk), hres M⟩⟩
+   fun _ M hM => ⟨fun k hk => Or.inl (by simp only at hk; rw [hp] at hk; exact hk),
+    hres M (fun k hk => hM k (by simp only; rw [hp]; exact hk))⟩⟩
+
+/-- a step that reported something: nothing is claimed -/
+theorem GP.pos {c c' : OCtx} {Res : Memo → Prop} {k : Nat} (hk : k ≠ 0) (hp : ∀ x ∈ c.pairs, x ∈ c'.pairs)
+    (hcr : c.crash = none) : GP s d c (k, c') Res :=
+  ⟨hcr, hp, fun h0 => absurd h0 hk⟩
+
+/-- change the count to one that vanishes only if the original does -/
+theorem GP.count {c : OCtx} {r : Nat × OCtx} {R : Memo → Prop} (h : GP s d c r R) (k : Nat) (hk : k = 0 → r.1 = 0) :
+    GP s d c (k, r.2) R :=
+  ⟨h.crash, h.mono, fun h0 => h.res (hk h0)⟩
 
 /-- weaken the payload -/
 theorem GP.imp {c : OCtx} {r : Nat × OCtx} {R1 R2 : Memo → Prop} (h : GP s d c r R1) (hi : ∀ M, Sup r.2 M → R1 M → R2 M) :
